@@ -317,6 +317,9 @@ pub fn render_module(m: &Module) -> String {
             out.push_str(&format!("        m.add_ts::<{ty}>({});\n", lit(&ty)));
         }
     }
+    for r in &m.extra_roots {
+        out.push_str(&format!("        m.add_ts::<{r}>({});\n", lit(r)));
+    }
     out.push_str("    }\n}\n");
     out
 }
